@@ -48,6 +48,9 @@ FUNCTIONS = [
     ('isotp/tools.py', 'Timer', 'is_timed_out'),
     ('isotp/tools.py', 'Timer', 'is_stopped'),
     ('isotp/tools.py', 'Timer', 'stop'),
+    ('isotp/tools.py', 'Timer', 'start'),
+    ('isotp/tools.py', 'Timer', 'elapsed_ns'),
+    ('isotp/tools.py', 'Timer', 'remaining_ns'),
 ]
 
 # classes whose members / integer constants are dumped: (file, dotted class path)
